@@ -39,6 +39,17 @@ def exPr : Params Rat :=
     recomputeLastProx := false, updateDirFromProxStep := false, alwaysOverwrite := false,
     tolerance := 1/1000, lsFuel := 8 }
 
+/-- the library's DEFAULT `ZeroFPRParams` (zerofpr.hpp, lipschitz.hpp) and `InnerSolveOptions`
+    (`always_overwrite_results = true`, `tolerance = 0`), with the model's default fuel 4096;
+    `10·2⁻⁵² = 10·ε_machine` -/
+def defaultParams : Params Rat :=
+  { L0 := 0, lipEps := 1/1000000, lipDelta := 1/1000000000000, LgammaFactor := 95/100, maxIter := 100,
+    minLsCoef := 1/256, forceLinesearch := false, lsStrictness := 95/100, Lmin := 1/100000,
+    Lmax := 100000000000000000000, stopCrit := .ApproxKKT, maxNoProgress := 10,
+    qubTol := 10 / 4503599627370496, lsTol := 10 / 4503599627370496, updateDirInCandidate := false,
+    recomputeLastProx := false, updateDirFromProxStep := false, alwaysOverwrite := true,
+    tolerance := 0 }
+
 /-- the solve with `x₀ = [3]`, `y = [5]`, `Σ = [2]`, `err_z` pre-filled with `[7]` -/
 def exRun (stop : Nat → Bool) : Result Rat Unit :=
   run exP exDir () exPr stop false [3] [5] [2] [7] [] 0 1000000
